@@ -29,6 +29,12 @@ def vicase(c):
         tape = "[" + "; ".join(coqgen.val(v) for v in c["tape"]) + "]"
         return (f"CElbo {coqgen.gast(c['target'])} {coqgen.gast(c['family'])} {coqgen.cm(c['cons'])} "
                 f"{coqgen.args(c['targs'])} {coqgen.args(c['qargs'])} {tape} {coqgen.z(c['value'])}")
+    if c["kind"] == "fam":
+        m = "[" + "; ".join(f"({q(a)}, {q(b)})" for a, b in zip(c["m"], c["dm"])) + "]"
+        C = "[" + "; ".join("[" + "; ".join(f"({q(a)}, {q(b)})" for a, b in zip(r, dr)) + "]"
+                            for r, dr in zip(c["C"], c["dC"])) + "]"
+        ql = lambda l: "[" + "; ".join(q(x) for x in l) + "]"  # noqa: E731
+        return f"CFam {m} {C} {ql(c['eps'])} {ql(c['w'])} {q(c['y'])} {q(c['p'])} {q(c['t'])}"
     if not c["shape_ok"]:
         return "CFlagV false"
     hist = "[" + "; ".join(q(h) for h in c["hist"]) + "]"
@@ -62,15 +68,19 @@ def run(ctx):
     res = common.eval_cases_files([vf])[vf]
     bad = res.get("bad", [])
     nt = len({json.dumps({k: v for k, v in c.items() if k not in ("value", "hist", "final")}, sort_keys=True) for c in cases
-              if "err" not in c and (c["kind"] == "vi" and c["n"] >= 2 or c["kind"] == "elbo" and c["nlatent"] >= 1)})
+              if "err" not in c and (c["kind"] == "fam" or c["kind"] == "vi" and c["n"] >= 2 or c["kind"] == "elbo" and c["nlatent"] >= 1)})
     return {"cases": cases, "bad": bad, "worker_errs": worker_errs, "coq_errs": [res["error"]] if "error" in res else [],
             "coverage": {"evaluations": len(cases), "distinct_nontrivial": nt,
                          "rule": "elbo: random @gen targets with 2-4 dyadic categorical sites (parent-dependent), random observed subsets, a variational family over the "
                                  "latent addresses (20%: also over an observed address, to exercise merge precedence) built from a REINFORCE primitive with scripted outcomes; "
                                  "elbo_factory(...).estimate(params) in units of ln 2 compared exactly with the model and with log p(merged) - log q(z) from the spec densities. "
+                                 "fam: mean_field_normal_family / full_covariance_normal_family (reparam) in 2-3 dimensions with scripted noise on a conjugate linear-Gaussian target: "
+                                 "ELBO value and directional derivative w.r.t. mean and (off-diagonal) Cholesky factor compared with x = mean + chol @ eps in exact rationals (tolerance 1e-3). "
                                  "vi: optimize_vi on -a*sum((p-b)^2) for scalar and vector parameters, learning rates {0,1/8,1/4,1/2}, 1-8 iterations: history, final parameters "
                                  "and shapes compared with the exact recurrence (tolerance 1e-4); non-trivial = distinct elbo case with a latent site / vi case with >=2 iterations",
                          "histogram": {"kinds": Counter(c["kind"] for c in cases),
+                                       "full_cov_offdiag": sum(1 for c in cases if c.get("kind") == "fam" and c.get("full") and "C" in c
+                                                               and any(c["C"][i][j] for i in range(c["nd"]) for j in range(i))),
                                        "overlap": sum(1 for c in cases if c.get("overlap")),
                                        "errors": Counter(c.get("err", "")[:70] for c in cases if "err" in c)},
                          "samples": cases[:1] + [c for c in cases if c["kind"] == "vi"][:1]}}
